@@ -115,6 +115,7 @@ func (c *checker) check(where string) bool {
 			return false
 		}
 		c.run.Inc("address_checks")
+		c.run.Distinct("address_states_compared", sc, strings.Join(wl, "|"))
 		if len(wl) > 0 {
 			c.run.Inc("address_checks_nonempty")
 		}
@@ -362,6 +363,6 @@ func Main() {
 	run.Assume("the UTXO projection is computed from the reference UTXO set, which the same run ties to the node's UTXO dump after every delivery")
 	run.Assume("taproot addresses only receive (the generator has no taproot signer); P2PKH/P2SH/P2WPKH/P2WSH are received and spent")
 	os.RemoveAll(tmp) // Finish exits the process: deferred clean-up would not run
-	run.Finish("each evaluation = GetAllUnspent(addr) (set, sum) for one address compared with the UTXO projection after one delivery / reorganisation step / index (re)build; plus a full Browse comparison each time; distinct_nontrivial = distinct histories (seed, number of addresses)",
-		"address_checks", "addresses_seen", 4)
+	run.Finish("each evaluation = GetAllUnspent(addr) (set, sum) for one address compared with the UTXO projection after one delivery / reorganisation step / index (re)build; plus a full Browse comparison each time; distinct_nontrivial = distinct (address, set of unspent outputs) states that were compared",
+		"address_checks", "address_states_compared", 4)
 }
